@@ -21,7 +21,9 @@ RULE = (
     "cases = (backend, dense seeded store, REQ of 1-5 well-formed filters). Stores of 12 events are queried with "
     "EVERY filter of <=2 conditions x <=2 values drawn from the store's own authors/kinds/tag values/ids and a "
     "since/until grid (small-scope exhaustive part); larger stores (40-160 events, mined ids/pubkeys starting "
-    "00/7f/ff, prefix-related tag values, colliding timestamps) with seeded random conjunctions of 1-4 conditions. "
+    "00/7f/ff, prefix-related tag values, colliding timestamps) with seeded random conjunctions of 1-4 conditions; a third "
+    "of the filters carry an explicit limit equal to or just above their number of matches; some REQs contain a filter that "
+    "can match nothing (empty value list beside an ordinary condition) next to ordinary ones. "
     "Non-trivial = at least one filter of the REQ has a non-empty MUST set within its limit. Distinct = distinct "
     "(backend, store seed, canonical filter list)."
 )
@@ -32,7 +34,7 @@ ASSUMPTIONS = [
     "through a NIP-26 delegator or only at a since/until bound carry no must-deliver obligation",
 ]
 MIN_NONTRIVIAL = {"quick": 500, "thorough": 5000}
-REQUIRED_COUNTERS = ["reqs_with_obligation", "events_owed"]
+REQUIRED_COUNTERS = ["reqs_with_obligation", "events_owed", "tight_limits", "reqs_with_unmatchable_filter"]
 REQUIRED_COVERAGE = {
     "quick": ["lmdb_plans.IdIndex", "lmdb_plans.CreatedIndex", "lmdb_plans.KindIndex", "lmdb_plans.PubkeyIndex",
               "lmdb_plans.AuthorKindIndex", "lmdb_plans.TagIndex", "lmdb_plans.MultiIndex"],
@@ -178,13 +180,41 @@ async def run_store(backend, store_seed, mode, nreqs, counters, coverage, explic
             reqs = [explicit["filters"]]
         elif mode == "small":
             reqs = [[f] for f in enum_filters(stored, u.rng)]
+            # the two-condition filters once more with a limit equal to their number of matches
+            tight = []
+            for (f,) in reqs:
+                if len(f) == 2:
+                    may = sum(1 for ev in stored.values() if ref.match3(ev, f) in (ref.MUST, ref.MAY))
+                    if may and u.rng.random() < 0.5:
+                        tight.append([dict(f, limit=may)])
+            counters["tight_limits"] = counters.get("tight_limits", 0) + len(tight)
+            reqs += tight
             counters["enumerated_filters"] = counters.get("enumerated_filters", 0) + len(reqs)
         else:
             pool = list(stored.values())
             reqs = []
             for _ in range(nreqs):
                 n = 1 if u.rng.random() < 0.6 else u.rng.randint(2, 5)
-                reqs.append([u.wellformed_filter(pool, max_conds=u.rng.choice([1, 2, 2, 3, 4])) for _ in range(n)])
+                fs = [u.wellformed_filter(pool, max_conds=u.rng.choice([1, 2, 2, 3, 4])) for _ in range(n)]
+                for f in fs:
+                    # an explicit limit equal to / just above the number of matches: nothing may be cut
+                    if u.rng.random() < 0.3:
+                        may = sum(1 for ev in pool if ref.match3(ev, f) in (ref.MUST, ref.MAY))
+                        if may:
+                            f["limit"] = may + u.rng.choice([0, 0, 1, 3])
+                            counters["tight_limits"] = counters.get("tight_limits", 0) + 1
+                if u.rng.random() < 0.15:
+                    # a filter that can match nothing (an empty value list next to an ordinary condition)
+                    # must not take the other filters of the REQ down with it
+                    e = u.rng.choice(pool)
+                    null = u.rng.choice([
+                        {"#p": [e["pubkey"]], "#e": []}, {"#t": ["a"], "#e": []}, {"authors": [e["pubkey"]], "kinds": []},
+                        {"kinds": [e["kind"]], "ids": []}, {"#e": []}, {"authors": [], "#t": ["a"]}, {"ids": [e["id"]], "#z": []}])
+                    if len(fs) >= 5:
+                        fs.pop(u.rng.randrange(len(fs)))  # the property speaks of one to five filters (the LMDB planner plans five)
+                    fs.insert(u.rng.randrange(len(fs) + 1), null)
+                    counters["reqs_with_unmatchable_filter"] = counters.get("reqs_with_unmatchable_filter", 0) + 1
+                reqs.append(fs)
         for filters in reqs:
             m = tap.mark()
             ans = await qcore.run_req(rig, conn, filters)
